@@ -71,6 +71,7 @@ type Contract struct {
 	Reader            bool // reads the invariant's state only; its callers need no contract
 	InlineOwn         bool
 	ModularFor        []string // used by contract only when one of these functions is under verification
+	LoopBounded       bool     // loops cut at the unrolling bound are accepted; the obligations are labelled bounded
 	CallersAssumed    string
 	CallersAssumedFor map[string]string
 	Instances         []ast.Expr
@@ -537,6 +538,11 @@ func (ss *SpecSet) directive(cur **Contract, pkgPath, file string, ln int, body 
 		// under verification see the body (both are sound; the body keeps the detail the
 		// module's own invariants need)
 		(*cur).InlineOwn = true
+	case "loop-bounded":
+		// the function iterates a store range of unknown length: its obligations are decided for
+		// every run of at most the unrolling bound iterations and labelled BOUNDED (not a proof
+		// beyond the bound); meant for frames of loops whose iterations all do the same thing
+		(*cur).LoopBounded = true
 	case "modular-for":
 		// modular-for <FuncKey>, <FuncKey>: the contract (with its modifies clause) stands in
 		// for the body only while one of the named functions is verified; everywhere else the
